@@ -435,14 +435,42 @@ package stats
 //@   loop 1 (t) invariant forall j in 0.._k :: d.T[j] <= 1
 //@   assigns nothing
 
-// makeUmemo: assumed here (its body uses maps keyed by structs; see DESIGN
-// C02 P2/P3).
-//@ assume func makeUmemo
+// twoUmin / twoUmax (C02): memory safety; the value is a deterministic
+// function of the arguments.
+//@ func twoUmin
+//@   deterministic
+//@   model int
+//@   requires len(a) > len(t)
+//@   loop 1 (k) invariant 1 <= k && k <= K + 1 && K == len(t)
+//@   assigns nothing
+//@ func twoUmax
+//@   deterministic
+//@   model int
+//@   requires len(a) > len(t)
+//@   loop 1 (k) invariant 0 <= k && k <= K && K == len(t)
+//@   assigns nothing
+
+// makeUmemo (C02): memory safety (maps keyed by structs, range over maps),
+// the shape of the result (one table per k, the requested key present in the
+// last one - so the lookups in PMF/CDF cannot miss) and the K == 2 base case
+// are proved; that the table holds the counts acnt for K > 2 stays an
+// assumption (label assumed-count) with a bounded stand-in.
+//@ func makeUmemo
 //@   model real
-//@   trusted tie recurrence of Klotz / Cheung-Klotz (not verified: maps keyed by structs)
-//@   requires len(t) >= 2
+//@   requires len(t) >= 2 && t[0] + t[1] != 0
 //@   results A
-//@   ensures len(A) == len(t) + 1 && haskey(A[len(t)], ukey{n1, twoU}) && A[len(t)][ukey{n1, twoU}] == acnt(t, n1, twoU)
+//@   ensures [shape] len(A) == len(t) + 1
+//@   ensures [root]  haskey(A[len(t)], ukey{n1, twoU})
+//@   ensures [assumed-count] A[len(t)][ukey{n1, twoU}] == acnt(t, n1, twoU)
+//@   loop 1 (k) invariant K == len(t) && 2 <= k && k <= K + 1 && len(a) == K + 1 && fresh(a)
+//@   loop 2 (k) invariant K == len(t) && 1 <= k && k <= K - 1 && len(a) == K + 1 && fresh(a) && len(A) == K + 1 && fresh(A) && (forall j in k+1..K+1 :: allocated(A[j]) && fresh(A[j])) && (forall i in k+1..K+1, j in k+1..K+1 :: i != j ==> A[i] != A[j]) && haskey(A[K], ukey{n1, twoU})
+//@   loop 3 (A_kplus1) invariant K == len(t) && 2 <= k && k <= K - 1 && len(a) == K + 1 && fresh(a) && len(A) == K + 1 && fresh(A) && (forall j in k..K+1 :: allocated(A[j]) && fresh(A[j])) && (forall i in k..K+1, j in k..K+1 :: i != j ==> A[i] != A[j]) && haskey(A[K], ukey{n1, twoU})
+//@   loop 4 (rk) invariant K == len(t) && 2 <= k && k <= K - 1 && len(a) == K + 1 && fresh(a) && len(A) == K + 1 && fresh(A) && (forall j in k..K+1 :: allocated(A[j]) && fresh(A[j])) && (forall i in k..K+1, j in k..K+1 :: i != j ==> A[i] != A[j]) && haskey(A[K], ukey{n1, twoU})
+//@   loop 5 (A_2i) invariant K == len(t) && len(a) == K + 1 && fresh(a) && len(A) == K + 1 && fresh(A) && (forall j in 2..K+1 :: fresh(A[j])) && haskey(A[K], ukey{n1, twoU})
+//@   loop 6 (r2) invariant K == len(t) && len(a) == K + 1 && fresh(a) && len(A) == K + 1 && fresh(A) && (forall j in 2..K+1 :: fresh(A[j])) && haskey(A[K], ukey{n1, twoU})
+//@   loop 7 (k) invariant K == len(t) && 3 <= k && k <= K + 1 && len(a) == K + 1 && fresh(a) && len(A) == K + 1 && fresh(A) && (forall j in 2..K+1 :: fresh(A[j])) && haskey(A[K], ukey{n1, twoU})
+//@   loop 8 (A_ki) invariant K == len(t) && 3 <= k && k <= K && len(a) == K + 1 && fresh(a) && len(A) == K + 1 && fresh(A) && (forall j in 2..K+1 :: fresh(A[j])) && haskey(A[K], ukey{n1, twoU})
+//@   loop 9 (rk) invariant K == len(t) && 3 <= k && k <= K && len(a) == K + 1 && fresh(a) && len(A) == K + 1 && fresh(A) && (forall j in 2..K+1 :: fresh(A[j])) && haskey(A[K], ukey{n1, twoU})
 //@   assigns nothing
 
 // UDist.p: the in-place two-dimensional dynamic programme is proved to
@@ -481,7 +509,7 @@ package stats
 //@ func UDist.CDF
 //@   deterministic
 //@   model real
-//@   requires d.N1 >= 1 && d.N2 >= 1 && (tied(d.T) ==> len(d.T) >= 2)
+//@   requires d.N1 >= 1 && d.N2 >= 1 && (tied(d.T) ==> len(d.T) >= 2 && d.T[0] + d.T[1] != 0)
 //@   ensures [below]  U < 0 ==> result == 0
 //@   ensures [above]  U >= d.N1 * d.N2 ==> result == 1
 //@   ensures [tied]   0 <= U && U < d.N1 * d.N2 && tied(d.T) ==> result == acnt(d.T, d.N1, ifloor(2*U)) / mathx.Choose(d.N1 + d.N2, d.N1)
@@ -492,7 +520,7 @@ package stats
 
 //@ func UDist.PMF
 //@   model real
-//@   requires d.N1 >= 1 && d.N2 >= 1 && (tied(d.T) ==> len(d.T) >= 2)
+//@   requires d.N1 >= 1 && d.N2 >= 1 && (tied(d.T) ==> len(d.T) >= 2 && d.T[0] + d.T[1] != 0)
 //@   ensures [outside] (U < 0 || U >= 0.5 + d.N1 * d.N2) ==> result == 0
 //@   ensures [tied]    0 <= U && U < 0.5 + d.N1 * d.N2 && tied(d.T) ==> result == (acnt(d.T, d.N1, ifloor(2*U)) - acnt(d.T, d.N1, ifloor(2*U) - 1)) / mathx.Choose(d.N1 + d.N2, d.N1)
 //@   ensures [untied]  0 <= U && U < 0.5 + d.N1 * d.N2 && !tied(d.T) ==> result == upmf(d.N1, d.N2, ifloor(U))
